@@ -102,3 +102,136 @@ class ClassifierMonitor(DfaMonitor):
     def indicators(self, m):
         qs = m[0]
         return dict((n, q in d.accept) for n, d, q in zip(self.names, self.dfas, qs))
+
+
+PCAP = 4
+
+BOUNDARIES = [  # (name, register path in the URI or 'segment', tag, end, multi)
+    ('scheme.first', ('scheme', 'first'), 'scheme', 'b', False),
+    ('scheme.afterLast', ('scheme', 'afterLast'), 'scheme', 'e', False),
+    ('userInfo.first', ('userInfo', 'first'), 'userInfo', 'b', False),
+    ('userInfo.afterLast', ('userInfo', 'afterLast'), 'userInfo', 'e', False),
+    ('hostText.first', ('hostText', 'first'), 'hostText', 'b', False),
+    ('hostText.afterLast', ('hostText', 'afterLast'), 'hostText', 'e', False),
+    ('portText.first', ('portText', 'first'), 'portText', 'b', False),
+    ('portText.afterLast', ('portText', 'afterLast'), 'portText', 'e', False),
+    ('query.first', ('query', 'first'), 'query', 'b', False),
+    ('query.afterLast', ('query', 'afterLast'), 'query', 'e', False),
+    ('fragment.first', ('fragment', 'first'), 'fragment', 'b', False),
+    ('fragment.afterLast', ('fragment', 'afterLast'), 'fragment', 'e', False),
+    ('segment.first', 'segment', 'segment', 'b', True),
+    ('segment.afterLast', 'segment', 'segment', 'e', True),
+]
+
+
+class PebbleMonitor(DfaMonitor):
+    """one pebble on one input position (or at the end, or none).  Monitor state:
+    (q, dead_age, lit, dead_in_lit, qps, pa, segb, sege)
+      qps  states of the pebbled DFAs, one per boundary
+      pa   None: pebble not placed yet; k: placed k symbols ago; 'far'; 'end'; 'none' (input ended without pebble)
+      segb / sege   0 / 1 / 'f': some pushed segment began / ended exactly at the pebble"""
+    pebbles = True
+    success_only = True     # allocation failures and rejected inputs are decided by C01 / C03
+
+    def __init__(self, dfa, pdfas):
+        DfaMonitor.__init__(self, dfa)
+        self.pdfas = pdfas
+        self.tc = {}
+        self.pdead = []
+        for d in pdfas:
+            rev = [set() for _ in range(d.n)]
+            for a in range(d.n):
+                for b in d.trans[a]:
+                    rev[b].add(a)
+            live = set(d.accept) | set(d.accept_end)
+            st = list(live)
+            while st:
+                x = st.pop()
+                for y in rev[x]:
+                    if y not in live:
+                        live.add(y)
+                        st.append(y)
+            self.pdead.append(set(range(d.n)) - live)
+
+    def init(self, al):
+        m = DfaMonitor.init(self, al)
+        self.pc = []
+        for d in self.pdfas:
+            cm = []
+            for s in al.sets:
+                cs = set(d.class_of[min(x, 256)] for x in s)
+                if len(cs) != 1:
+                    raise AssertionError('alphabet does not refine the pebbled DFA classes')
+                cm.append(cs.pop())
+            self.pc.append(cm)
+        return m + (tuple(0 for _ in self.pdfas), None, 0, 0)
+
+    def pebble_free(self, m):
+        return m[5] is None and m[1] is None
+
+    def pa_of(self, m):
+        pa = m[5]
+        return None if pa == 'none' else pa
+
+    def on_symbol(self, m, c, al, bit=0):
+        base = DfaMonitor.on_symbol(self, m[:4], c, al)
+        qps, pa, sb, se = m[4], m[5], m[6], m[7]
+        key = (qps, c, bit)
+        q2 = self.tc.get(key)
+        if q2 is None:
+            q2 = tuple(d.trans[q][cm[c] * 2 + bit] for d, q, cm in zip(self.pdfas, qps, self.pc))
+            self.tc[key] = q2
+        if bit:
+            pa2 = 1
+        elif pa is None or pa in ('far', 'end', 'none'):
+            pa2 = pa
+        else:
+            pa2 = pa + 1 if pa + 1 <= PCAP else 'far'
+        if sb == 'f':
+            sb = 1 if bit else 0
+        if se == 'f':
+            se = 1 if bit else 0
+        if base[1] is not None:
+            # the specification is dead: boundaries are irrelevant from here on
+            return None     # rejected inputs have no components; their handling is C01's business
+        if pa2 is not None and all(q in dd for q, dd in zip(q2, self.pdead)):
+            # the pebble sits where no component boundary can be: nothing to decide on this branch
+            return None
+        return base + (q2, pa2, sb, se)
+
+    def eof_options(self, m):
+        qps, pa, sb, se = m[4], m[5], m[6], m[7]
+        out = []
+        if pa is None and m[1] is None and qps:
+            for at_end in (False, True):
+                if at_end and not any(q in d.accept_end for q, d in zip(qps, self.pdfas)):
+                    continue
+                out.append((m[:4] + (qps, 'end' if at_end else 'none', (1 if at_end else 0) if sb == 'f' else sb,
+                                     (1 if at_end else 0) if se == 'f' else se), at_end))
+        else:
+            out.append((m[:4] + (qps, pa, 0 if sb == 'f' else sb, 0 if se == 'f' else se), False))
+        return out
+
+    def after_step(self, m, obs):
+        sb, se = m[6], m[7]
+        ch = False
+        for o in obs:
+            if o[0] == 'heap-store' and len(o) > 5 and len(o[2]) >= 2 and o[2][-2] == 'text':
+                at = o[5]
+                if at in (True, 'f'):
+                    v = 1 if at is True else 'f'
+                    if o[2][-1] == 'first' and sb != 1:
+                        sb, ch = v, True
+                    elif o[2][-1] == 'afterLast' and se != 1:
+                        se, ch = v, True
+        if ch:
+            return m[:6] + (sb, se)
+        return m
+
+    def verdicts(self, m):
+        """per boundary: does the specification accept the pebbled string read so far (at end of input)?"""
+        qps, pa = m[4], m[5]
+        out = []
+        for d, q in zip(self.pdfas, qps):
+            out.append(q in (d.accept_end if pa == 'end' else d.accept))
+        return out
